@@ -26,7 +26,7 @@ def build_cases(ctx):
         cases = rc.standard_cases(rng, n_opt_random=40, n_all=12, reps=2)
     else:
         cases = rc.standard_cases(rng, n_opt_random=400, n_all=120, reps=12)
-    return rc.corpus_cases('C11') + rc.corpus_cases('C12') + rc.corpus_cases('C13') + cases + rc.ood_cases(rng)
+    return rc.corpus_cases('C11') + rc.corpus_cases('C12') + rc.corpus_cases('C13') + cases + rc.big_cases(rng) + rc.ood_cases(rng)
 
 
 def run(rep, ctx):
